@@ -129,7 +129,11 @@ func elementJSON(i int, e bulkElem, pat string) string {
 		if extra != "" {
 			mdExtra = fmt.Sprintf(`,"extra":"%d"`, pos)
 		}
-		return fmt.Sprintf(`{"action":"CREATE_TRANSACTION",%s"data":{"postings":[{"source":"%s","destination":"bank","amount":%d,"asset":"USD"}],"metadata":{"el":"%d"%s}%s}}`, key, src, amt, pos, mdExtra, extra)
+		if pos%3 == 0 {
+			// every third position: the transaction given both as postings and as the equivalent script
+			return fmt.Sprintf(`{"action":"CREATE_TRANSACTION",%s"data":{"postings":[{"source":"%s","destination":"bank","amount":%d,"asset":"USD"}],"script":{"plain":"send [USD %d] (\n source = @%s\n destination = @bank\n)\n"},"metadata":{"el":"%d"%s}%s}}`, key, src, amt, amt, src, pos, mdExtra, extra)
+		}
+				return fmt.Sprintf(`{"action":"CREATE_TRANSACTION",%s"data":{"postings":[{"source":"%s","destination":"bank","amount":%d,"asset":"USD"}],"metadata":{"el":"%d"%s}%s}}`, key, src, amt, pos, mdExtra, extra)
 	case "ADD_META":
 		if e.Fail {
 			return fmt.Sprintf(`{"action":"ADD_METADATA",%s"data":{"targetType":"TRANSACTION","targetId":999,"metadata":{"el":"%d"}}}`, key, pos)
